@@ -406,6 +406,18 @@ main(void)
 			}
 			h_free(k);
 			printf(ok ? "ctxzero" : "ctxNONZERO");
+		} else if (hc_is("hooktest", 1)) {
+			/* self-test of the observation: a block holding an armed pattern is released behind the wrappers'
+			 * back (as libc would); the sanitizer build must notice, the plain build cannot */
+			static const uint8_t mark[8] = { 0x5e, 0xc2, 0xe7, 0x11, 0x90, 0x3b, 0xa4, 0x6d };
+			uint8_t * b = __real_malloc(40);
+
+			add_pattern(mark);
+			memcpy(b + 16, mark, 8);
+			watching = 1; expect_zero = 0;
+			__real_free(b);
+			watching = 0;
+			printf("hooktest %s", verdict[0] ? "seen" : "absent");
 		} else if (hc_is("aesmode", 1)) {
 			/* aesmode sw: AES-NI is compiled in (HWACCEL) but must not be selected at run time.  The library
 			 * decides once per process, after a self-test of the accelerated code; the self-test's allocations
